@@ -3,7 +3,7 @@
 # Applies a patch to a scratch copy of /repo (outside /repo and /verif), runs the 46 baseline tests
 # and the given check(s) against the copy (evidence/replays go to <copy>/.verif-out), removes the copy.
 set -u
-P="$1"; ID="$2"; TIER="${3:-quick}"
+P="$(readlink -f "$1")"; ID="$2"; TIER="${3:-quick}"
 D=$(mktemp -d /dev/shm/frame-mut.XXXXXX)
 rsync -a --exclude .git --exclude outputs --exclude doc /repo/ "$D"/
 ( cd "$D" && patch -p1 -s < "$P" ) || { echo "PATCH FAILED"; rm -rf "$D"; exit 3; }
